@@ -106,7 +106,7 @@ def run_file_prog(text, k, budget=5000):
             s2 = Session.resume(sf)
             stream = s2._impl.io_streams._output_streams[0]
             s2._impl.interpreter.verif_hook = mk(s2)
-            s2.press_keys(u'CLOSE\rSYSTEM\r')
+            s2.press_keys(u'\x1bCLOSE\rSYSTEM\r')
             try:
                 s2.interact()
             except error.Exit:
